@@ -5159,7 +5159,7 @@ void UniCompiler::emit_vm(UniOpVM op, const Vec& dst_, const Mem& src_, Alignmen
       case UniOpVM::kLoad16_U16:
         if (!has_avx512_fp16()) {
           dst = dst.xmm();
-          src.set_size(1);
+          src.set_size(2);
           avx_zero(*this, dst);
           cc->vpinsrw(dst, dst, src, 0);
         }
